@@ -20,4 +20,14 @@ extern "C" void vt_assume(bool condition);
 namespace vt {
 static unsigned long g_model_alloc_bytes = 0;
 }
+#ifndef VT_GHOST_ENSURE
+#define VT_GHOST_ENSURE
+namespace vt {
+// ghost: bytes the last successful Ensure() on the reference reader vouched for, and resize() calls of the std
+// models that asked for more than that (C02: no allocation sized by an unchecked length field)
+static unsigned long g_ensured_bytes = 0;
+static unsigned long g_unensured_resize = 0;
+}
+#endif
+
 #endif
